@@ -1,10 +1,10 @@
 CONSTANTS
-  W = 2
-  H = 2
-  Traps = {}
+  W = 3
+  H = 3
+  Traps = {5}
   Complement <- StdComplement
-  Roots <- Roots22
-  MaxTurns = 9
+  Roots <- Roots33a
+  MaxTurns = 2
   StopAtResult = FALSE
 SPECIFICATION Spec
 CONSTRAINT TurnBound
